@@ -813,16 +813,16 @@ void incrTwoByte(ssl_t *ssl, unsigned char *c, int sending)
         if ((int) c[i] < 0xFF)
         {
             c[i]++;
-            if (sending)
-            {
-                if (c[i] > ssl->largestEpoch[i])
-                {
-                    ssl->largestEpoch[i] = c[i];
-                }
-            }
             break;
         }
         c[i] = 0;
+    }
+    if (sending)
+    {
+        /* c started from the largest epoch used: the new value, as a whole
+           (not byte by byte), is the largest now */
+        ssl->largestEpoch[0] = c[0];
+        ssl->largestEpoch[1] = c[1];
     }
 }
 
@@ -1060,6 +1060,14 @@ static bool canResend(ssl_t *ssl)
 {
     bool canSend = false;
 
+    if (ssl->largestEpoch[0] == 0xFF && ssl->largestEpoch[1] == 0xFF &&
+        dtlsCompareEpoch(ssl->epoch, ssl->resendEpoch) != 0)
+    {
+        /* The flight holds a ChangeCipherSpec and would go out under a new
+           epoch: all are used, and an epoch is never used twice */
+        return false;
+    }
+
     if (ssl->flags & SSL_FLAGS_SERVER)
     {
         /* Expecting the client's Finished is a flight boundary only in a
@@ -1120,9 +1128,16 @@ static bool canResend(ssl_t *ssl)
                 canSend = 1;
             }
         }
-        if (ssl->hsState == SSL_HS_DONE)
+        if (ssl->flags & SSL_FLAGS_RESUMED)
         {
-            canSend = 1; /* Done is set on parse of peer FINISHED */
+            /* Only in a resumed handshake is the client's flight the last
+               one.  In a full handshake the server's Finished says it has
+               everything from us: old records of it are never a reason to
+               send ours again (nor for the server to answer that, and so on) */
+            if (ssl->hsState == SSL_HS_DONE)
+            {
+                canSend = 1; /* Done is set on parse of peer FINISHED */
+            }
         }
 #else
         canSend = 1;  /* Why wouldnt't it be safe to resend aways when in doubt */
